@@ -2,7 +2,8 @@
 C18 — model of the type printer and of the type grammar.
 
 Printer: base/src/types/mod.rs:2503-3017 (`Prec`, `Prec::enclose`, `DisplayType::pretty_`,
-`pretty_record_like`, `pretty_row`, `pretty_function_`, `is_tuple` :2576) and
+`pretty_record_like`, `pretty_row`, `pretty_function_`, `is_tuple` :2576; line numbers after
+`is_tuple` are those before commit 35ef2d5, which added 7 lines there) and
 base/src/types/pretty_print.rs:15 (`ident`).  The `pretty` document combinators `group`, `nest`,
 `line`, `hardline` only produce white space, so the model prints the *token stream*; the line
 width never enters (the harness checks on the real code that the token stream is the same at
@@ -107,18 +108,30 @@ def tupleNames : Nat → Ty → Bool
   | i, .rtype _ _ _ rest => tupleNames i rest
   | _, _ => true
 
-/-- mod.rs:2576 `is_tuple` (on the row of a `Record`).  Note that neither the number of fields
-    nor the row tail is looked at. -/
-def isTuple (row : Ty) : Bool := !hasTypeField row && tupleNames 0 row
-
-def typesLen : Ty → Nat
-  | .rtype _ _ _ rest => typesLen rest + 1
-  | .rfield _ _ rest => typesLen rest
-  | _ => 0
+/-- the row ends in `EmptyRow` (mod.rs:2594 `matches!(**fields.current_type(), Type::EmptyRow)`) -/
+def rowClosed : Ty → Bool
+  | .rfield _ _ rest => rowClosed rest
+  | .rtype _ _ _ rest => rowClosed rest
+  | .rnil => true
+  | _ => false
 
 def fieldsLen : Ty → Nat
   | .rfield _ _ rest => fieldsLen rest + 1
   | .rtype _ _ _ rest => fieldsLen rest
+  | _ => 0
+
+/-- mod.rs:2576-2598 `is_tuple` (on the row of a `Record`) as of commit 35ef2d5: no type fields,
+    fields named `_0 … _n-1` in order, `n ≠ 1`, closed row. -/
+def isTuple (row : Ty) : Bool :=
+  !hasTypeField row && tupleNames 0 row && fieldsLen row != 1 && rowClosed row
+
+/-- `is_tuple` before commit 35ef2d5: neither the number of fields nor the row tail was looked
+    at (kept for the regression theorems `…_old_rule_fails`). -/
+def isTupleOld (row : Ty) : Bool := !hasTypeField row && tupleNames 0 row
+
+def typesLen : Ty → Nat
+  | .rtype _ _ _ rest => typesLen rest + 1
+  | .rfield _ _ rest => typesLen rest
   | _ => 0
 
 mutual
@@ -243,6 +256,12 @@ def mkRow (types : List (String × List String × Ty)) (fields : List (String ×
     (fields.foldr (fun x acc => .rfield x.1 x.2 acc) rest)
 
 def mkCtor (args : List Ty) : Ty := args.foldr (fun a acc => .fn false a acc) .opaque
+
+/-- grammar.lalrpop:401-408: every arrow on the spine of a GADT-style constructor's type gets
+    `ArgType::Constructor` — an implicit-argument marker there is dropped. -/
+def ctorize : Ty → Ty
+  | .fn _ a r => .fn false a (ctorize r)
+  | t => t
 
 mutual
 /-- `Type_` (grammar.lalrpop:526-540) -/
@@ -419,13 +438,13 @@ def pVariant : Nat → Nat → List Tok → Option (Ty × List Tok)
       match r with
       | .pipe :: _ =>
         match pVariant n f r with
-        | some (row, r') => some (.rfield c t row, r')
+        | some (row, r') => some (.rfield c (ctorize t) row, r')
         | none => none
       | .dotdot :: r' =>
         match pAtomic f r' with
-        | some (rest, r'') => some (.rfield c t rest, r'')
+        | some (rest, r'') => some (.rfield c (ctorize t) rest, r'')
         | none => none
-      | _ => some (.rfield c t .rnil, r)
+      | _ => some (.rfield c (ctorize t) .rnil, r)
     | none => none
   | n + 1, f, .pipe :: .id c :: ts =>
     if !startsUpper c then none else
